@@ -15,6 +15,7 @@ from ..engine import pattern as P
 from ..engine.facts import dotted, const, src, call_name, walk_func
 from .common import pn, access_paths
 from ..engine import cfg as cfgmod
+from . import c15  # atomic-publish (module files are created beside their final path, beneath module_directory) is registered for C09 there
 
 
 def canon(chain):
@@ -25,6 +26,8 @@ def canon(chain):
             out.append("BS2SLASH")
         elif op[0] == "lstrip" and len(op) >= 2 and isinstance(op[1], str) and "/" in op[1] and set(op[1]) <= set("/\\"):
             out.append("STRIP")
+        elif op[0] == "lstrip" and len(op) >= 2 and isinstance(op[1], str) and op[1] and set(op[1]) <= set("/\\"):
+            out.append("STRIPBS")  # strips backslashes only
         elif op[0] == "re.sub" and isinstance(op[1], str) and op[2] == "" and rx.is_anchored_leading(op[1], "/"):
             out.append("STRIP")
         elif op[0] == "re.sub" and isinstance(op[1], str) and op[2] == "" and rx.only_literals(op[1], "/"):
@@ -40,6 +43,35 @@ def canon(chain):
         else:
             out.append("?" + op[0])
     return out
+
+
+def leading_run_survivors(chain):
+    """evaluate the chain's own string operations (those before normpath / join) on every
+    leading run of up to four slashes and backslashes followed by `x`: the runs
+    which are not removed completely, or None when an operation is not modelled"""
+    import itertools
+    import re as _re
+    ops = []
+    for op in chain.ops:
+        if op[0] in ("normpath", "join2", "abspath", "concat"):
+            break
+        ops.append(op)
+    bad = []
+    for n in range(0, 5):
+        for run in itertools.product("/\\", repeat=n):
+            s = "".join(run) + "x"
+            for op in ops:
+                if op[0] == "replace" and len(op) >= 3 and isinstance(op[1], str) and isinstance(op[2], str):
+                    s = s.replace(op[1], op[2])
+                elif op[0] == "lstrip" and len(op) >= 2 and isinstance(op[1], str):
+                    s = s.lstrip(op[1])
+                elif op[0] == "re.sub" and isinstance(op[1], str) and isinstance(op[2], str):
+                    s = _re.sub(op[1], op[2], s)
+                else:
+                    return None
+            if s != "x":
+                bad.append(("".join(run) + "x", s))
+    return bad
 
 
 def _find_guard(fn):
@@ -151,10 +183,17 @@ def normaliser_agreement(ctx):
                 ctx.violation(key + ".has:" + ",".join(missing), where,
                               "%s normaliser lacks %s: chain is %r" % (side, missing, ch), chain=repr(ch))
                 continue
-            order_ok = toks.index("BS2SLASH") < toks.index("STRIP") < toks.index("NORM")
+            order_ok = toks.index("BS2SLASH") < toks.index("NORM") and toks.index("STRIP") < toks.index("NORM")
             ctx.check(order_ok, key + ".order", where,
-                      "%s normaliser applies %s out of order (need backslash->slash, then strip, then normpath): %r" % (side, toks, ch),
+                      "%s normaliser applies %s out of order (need backslash->slash and strip before normpath): %r" % (side, toks, ch),
                       "ops %s" % toks)
+            surv = leading_run_survivors(ch)
+            if surv is None:
+                ctx.undecided(key + ".leading-run", where, "an operation of %r is not modelled" % ch)
+            else:
+                ctx.check(not surv, key + ".leading-run", where,
+                          "%s normaliser leaves a leading separator on some mixtures of slashes and backslashes (e.g. %r becomes %r): normpath then clamps `..` at the root and the '..' test passes, while the other side strips the whole run and resolves outside the root" % (side, surv[0][0] if surv else None, surv[0][1] if surv else None),
+                          "every leading run of / and \\ (length <= 4) is removed")
             if side == "lookup":
                 if "JOIN" not in toks:
                     ctx.violation(key + ".join", where, "lookup path is not built by join(directory, uri): %r" % ch)
@@ -298,3 +337,42 @@ def who_may_open(ctx):
     m = db.mod("lookup")
     probes = sorted({dotted(n.func) for n in ast.walk(m.tree) if isinstance(n, ast.Call) and (dotted(n.func) or "").startswith(("os.", "posixpath.")) and (dotted(n.func) or "").split(".")[-1] in ("isfile", "stat", "exists", "lstat", "access", "getmtime", "isdir")})
     ctx.check(set(probes) <= {"os.path.isfile", "os.stat", "os.path.exists", "os.path.getmtime"}, "lookup.probes", m.relpath, "unexpected fs probes %s" % probes, "probes: %s" % probes)
+
+
+@rule("C09.probe-leads-to-guard", min_instances=2)
+def probe_leads_to_guard(ctx):
+    """every file-system probe on a path built from a URI has one use only: handing the probed file to _load (and so to Template's containment guard); nothing else learns whether a file outside the roots exists"""
+    db = ctx.db
+    from ..engine.facts import enclosing_stmt, ancestors
+    from ..engine import pattern as P
+    m = db.mod("lookup")
+    PROBES = ("isfile", "exists", "stat", "lstat", "access", "getmtime", "isdir", "listdir", "scandir")
+    n = 0
+    for c in ast.walk(m.tree):
+        if not (isinstance(c, ast.Call) and (dotted(c.func) or "").split(".")[-1] in PROBES and (dotted(c.func) or "").startswith(("os.", "posixpath."))):
+            continue
+        f = getattr(c, "_func", None)
+        q = getattr(f, "_qual", "<module>")
+        if f is None or not c.args:
+            continue
+        params = {a.arg for a in f.args.args if a.arg != "self"}
+        r = flow.Reaching(f)
+        chs = flow.chains(c.args[0], r, enclosing_stmt(c))
+        roots = {ch.root for ch in chs}
+        from_uri = any(rt in params for rt in roots)
+        n += 1
+        if not from_uri:
+            ctx.ok("probe:%s:%s" % (q, dotted(c.func)), db.where(c), "probes a path taken from %s (a loaded template), not from a URI" % sorted(roots))
+            continue
+        guard = [a for a in ancestors(c) if isinstance(a, ast.If) and any(x is c for x in ast.walk(a.test))]
+        ok = bool(guard) and len(guard[0].body) == 1 and P.matches(guard[0].body[0], "return self._load(%s, $u)" % src(c.args[0]))
+        ctx.check(ok, "probe:%s:%s" % (q, dotted(c.func)), db.where(c),
+                  "%s probes the file system for a path built from a URI and the answer is used for something else than `return self._load(path, uri)`: whether a file outside the configured directories exists is disclosed without passing Template's containment guard" % q,
+                  "positive probe only leads to _load -> Template (guard)")
+    ctx.require(n >= 2, "fewer than 2 file-system probes found in lookup.py (%d)" % n)
+    # has_template is answered by get_template
+    for q in ("lookup.TemplateCollection.has_template", "lookup.TemplateLookup.has_template"):
+        if not db.has(q):
+            continue
+        fn = db.func(q)
+        ctx.check(P.has(fn, "try:\n    self.get_template(%s)\n    return True\nexcept exceptions.TemplateLookupException:\n    return False" % pn(fn, 1)), "has_template:" + q.split(".")[1], db.where(fn), "%s is not answered by attempting get_template (which applies the containment guard)" % q, "has_template = get_template succeeded")
